@@ -200,8 +200,8 @@ def signature(case, msg):
 
 
 def replay(case):
-    if "wide" in case:
-        # the wide-network family is regenerated from the recorded seed and re-run as a whole
+    if "wide" in case or case.get("annealed"):
+        # the wide-network / refined-tree families are regenerated from the recorded seed and re-run as a whole
         class _R:
             def __init__(self):
                 self.msg = None
@@ -222,6 +222,11 @@ def replay(case):
                 self.msg = sig
 
         r = _R()
+        if case.get("annealed"):
+            run_annealed(r, "quick", random.Random(f"{case.get('seed', 0)}|C01|annealed"))
+            if r.msg is None:
+                return True, "every refined tree contracts to the einsum value"
+            return False, r.msg
         run_wide(r, "quick", random.Random(f"{case.get('seed', 0)}|C01|wide"))
         if r.msg is None:
             return True, "every wide-network contraction equals the matrix-chain product"
@@ -500,6 +505,58 @@ def run_wide(rep, tier, rng):
     return n_eval
 
 
+def run_annealed(rep, tier, rng):
+    """real tree.contract on trees refined by simulated annealing / subtree reconfiguration (the transformations that hand
+    precomputed legs to contract_nodes_pair) against numpy.einsum, exact integer entries, outputs with >= 2 indices"""
+    import numpy as np
+    import cotengra as ctg
+    from cotengra import ContractionTree
+
+    n_eval = 0
+    count = 40 if tier == "quick" else 400
+    for k in range(count):
+        n = rng.randint(4, 7)
+        con = ctg.utils.rand_equation(n, 3, n_out=rng.randint(2, 4), n_hyper_in=rng.randint(0, 1), n_hyper_out=rng.randint(0, 1), d_min=2, d_max=3, seed=rng.randint(0, 10**6))
+        inputs, output, sd = con.inputs, tuple(con.output), dict(con.size_dict)
+        output = tuple(rng.sample(output, len(output)))  # a declared order that is not the order of first appearance
+        ssa = scope.random_tree_ssa(n, rng)
+        how = rng.choice(("anneal", "anneal", "reconf"))
+        sseed = rng.randint(0, 10**6)
+        pe = rng.random() < 0.3
+        label = f"C01 {how}ed tree (seed {sseed}) of {','.join(''.join(t) for t in inputs)}->{''.join(output)} from tree {list(ssa)} prefer_einsum={pe}"
+        nrng = np.random.default_rng(sseed)
+        arrays = [nrng.integers(-3, 4, size=[sd[ix] for ix in t]) for t in inputs]
+        with warnings.catch_warnings():
+            warnings.simplefilter("ignore")
+            try:
+                tree = ContractionTree.from_path(inputs, output, sd, ssa_path=ssa)
+                if how == "anneal":
+                    tree.simulated_anneal_(tsteps=6, numiter=8, seed=sseed)
+                else:
+                    tree.subtree_reconfigure_(subtree_size=4, seed=sseed)
+                got = np.asarray(tree.contract(arrays, prefer_einsum=pe))
+                syms = {ix: chr(97 + i) for i, ix in enumerate(sd)}
+                eq = ",".join("".join(syms[ix] for ix in t) for t in inputs) + "->" + "".join(syms[ix] for ix in output)
+                want = np.einsum(eq, *arrays)
+                msg = None
+                if got.shape != want.shape:
+                    msg = f"result has shape {got.shape}, the declared output has shape {want.shape}"
+                elif not np.array_equal(got, want):
+                    msg = "value differs from numpy.einsum (axes not in the declared order?)"
+            except Exception as e:  # noqa: BLE001
+                msg = f"raised {type(e).__name__}: {str(e)[:100]}"
+        n_eval += 1
+        rep.nontrivial_case(_digest(label))
+        if msg is not None:
+            rep.violation(label + ": " + msg, {"module": MODULE, "case": {"annealed": True, "seed": seed()}})
+            break
+    rep.count(n_eval)
+    rep.fired("refined trees: contract == numpy.einsum", n_eval)
+    rep.scope("trees refined by simulated annealing / subtree reconfiguration", n_eval, False,
+              bound=f"{count} random networks of 4-7 tensors with 2-4 output indices in shuffled order, integer entries, exact comparison with numpy.einsum")
+    return n_eval
+
+
 def run_bounded(rep: Report, tier: str) -> None:
     global _DEADLINE
     rng = random.Random(f"{seed()}|C01|plans")
@@ -568,6 +625,7 @@ def run_bounded(rep: Report, tier: str) -> None:
     rep.extra["c01_violating_cases_seen"] = len(viols)
     if not viols:
         run_wide(rep, tier, random.Random(f"{seed()}|C01|wide"))
+        run_annealed(rep, tier, random.Random(f"{seed()}|C01|annealed"))
     rep.explanation += (
         "C01 bounded-symbolic: the real ContractionTree.from_path(...).contract(arrays, order, prefer_einsum, implementation) "
         "(after sort_contraction_indices(priority) where stated) ran on numpy object arrays of distinct polynomial variables; "
